@@ -2,6 +2,7 @@ import Bmc.Proofs.C13
 import Bmc.Proofs.EndToEnd.ContextC13
 import Bmc.Proofs.C13Source
 import Bmc.Proofs.SourcePins
+import Bmc.Proofs.EndToEnd.HistoryC13
 #print axioms Bmc.Proofs.C13.returns_by_deadline
 #print axioms Bmc.Proofs.C13.expired_context
 #print axioms Bmc.Proofs.C13.no_false_success
@@ -17,3 +18,8 @@ import Bmc.Proofs.SourcePins
 #print axioms Bmc.Proofs.EndToEnd.generated_sessionless_loop_stops_with_context
 #print axioms Bmc.Proofs.C13.transport_source
 #print axioms Bmc.Proofs.SourcePins.pinned_sources
+#print axioms Bmc.Proofs.EndToEnd.contract_length_le
+#print axioms Bmc.Proofs.EndToEnd.generated_history_within_contexts
+#print axioms Bmc.Proofs.EndToEnd.generated_history_prefix_within_contexts
+#print axioms Bmc.Proofs.EndToEnd.contract_append
+#print axioms Bmc.Proofs.EndToEnd.generated_history_call_within_its_context
